@@ -571,3 +571,10 @@ def disjoint_rules(chk, repo):
     okr = (merged and single) if recognised else None
     chk.ob('C06-f', 'structural', fr.key, 'groups with more than one member are merged, singletons passed through', okr,
            '', fr.loc())
+    # ... on every path: a path that hands the fields back without grouping them (an early return behind some test of
+    # the whole collection) skips the merge for collections the test misjudges
+    bypass = [p for p in returns(paths) if not any(is_app(a, 'call:field._reduce') for a in nf.value_atoms(p.ret))
+              and not p.calls('field._reduce')]
+    chk.ob('C06-f', 'structural', fr.key, 'every path returns the groups found by _reduce',
+           (not bypass) if returns(paths) else None,
+           '; '.join(f'returns {fmt(p.ret)[:60]} [{conds_str(p)[:80]}]' for p in bypass[:2]) or f'{len(returns(paths))} path(s)', fr.loc())
